@@ -30,6 +30,7 @@ void fakefd_destroy(int fd);
 size_t fakefd_live();
 
 extern volatile uint64_t g_sanitizer_reports;
+extern volatile uint64_t g_fd_misuse;  // read/write/close on an in-memory descriptor that was already closed
 extern volatile uint64_t g_alloc_bytes, g_alloc_max, g_alloc_calls, g_alloc_refused;
 extern volatile bool g_meter;
 extern long g_live_blocks;  // blocks obtained from operator new and not yet returned (always counted)
